@@ -1152,6 +1152,25 @@ class MTMReg(SymObj):
             return
         raise OutOfSubset(f"MultiTypeMap.{name} = ...")
 
+    def py_iter(self, I):
+        # the cached keys: an unknown, possibly non-empty collection (one symbolic representative)
+        self.log.append(("dict", "iterated"))
+        return [OpaqueCachedKey()]
+
+    def py_delitem(self, I, key):
+        self.log.append(("dict", "del", key))
+
+
+class OpaqueCachedKey(SymObj):
+    """some key of the resolution cache: a tuple of unknown length"""
+
+    concrete_identity = True
+
+    def py_len(self, I):
+        n = I.fresh("cached_key_len", z3.IntSort())
+        I.assume(n >= 0)
+        return ZV(n, "int")
+
 
 class HandleTok(SymObj):
     concrete_identity = True
